@@ -127,12 +127,20 @@ static inline void overlongReplay(Driver& d, Inst& in, long step) {
 	typedef typename std::remove_cv<typename std::remove_reference<decltype(std::declval<Instance&>().previousTransitions()[0])>::type>::type Tr;
 	if (!in.m->isActive((hfsm2::StateID)0)) return;
 	Probe& p = in.probe; p.step = (uint64_t)step;
-	const int n = 8 * VH_SHAPE.nStates + 64 + (int)(d.next() % 9);
+	int n = 8 * VH_SHAPE.nStates + 64 + (int)(d.next() % 9);
+	const int countMax = (int)(hfsm2::Short)~(hfsm2::Short)0;			// the count parameter is a Short
+	if (n > countMax) n = countMax;
+	// the list starts with a plain change to an inactive state, so that it is a history that changes something (replaying one that
+	// changes nothing is a usage error the library answers with a debug break and 'false')
+	int first = -1;
+	for (int t = 0; t < 16 && first < 0; ++t) { const int sId = 1 + (int)(d.next() % (uint64_t)(VH_SHAPE.nStates - 1)); if (!in.m->isActive((hfsm2::StateID)sId) && (VH_KINDMASK[sId] & 1)) first = sId; }
+	if (first < 0) return;
 	Tr* list = (Tr*)malloc(sizeof(Tr) * (size_t)n);
 	int made = 0;
-	for (int i = 0; i < n; ++i) {
+	new (&list[made++]) Tr{(hfsm2::StateID)first, hfsm2::TransitionType::CHANGE};
+	for (int i = 1; i < n; ++i) {
 		int kk = 0, dest = 0;
-		if (!pickReq(p, VH_KINDMASK, kk, dest)) { kk = 0; dest = 0; }
+		if (!pickReq(p, VH_KINDMASK, kk, dest)) { kk = 0; dest = first; }
 		new (&list[made++]) Tr{(hfsm2::StateID)dest, (hfsm2::TransitionType)kk};
 	}
 	d.opBegin(in, OP_OVERLONG, made);
